@@ -34,7 +34,7 @@ def parse_snapshot(snap, plens):
     state = "(mkmgr [%s] [%s] [%s] %s %s %s)" % (
         ";".join(coq_status(s) for s in sts), ";".join(peers), ";".join("(%s, [])" % c for c in cands),
         f["r"], "true" if f["x"] == "1" else "false", plens)
-    sp = [] if f["sp"] == "-" else [{"tracker": "SpTracker", "extractor": "SpExtractor"}[x] for x in f["sp"].split(",")]
+    sp = [] if f["sp"] == "-" else [{"tracker": "SpTracker", "extractor": "SpExtractor", "peer": "(SpPeer 0)"}[x] for x in f["sp"].split(",")]
     bc = []
     if f["bc"] != "-":
         for b in f["bc"].split(","):
@@ -195,7 +195,7 @@ def protocol_scenario(rng, npeers, n, steps, weights=None):
         alive.append(nxt)
         nxt += 1
     w = weights or {"unchoke": 5, "choke": 3, "have": 5, "done": 6, "cancel": 3, "int": 1, "nint": 1, "req": 1,
-                    "kill": 1, "bf": 1, "bfsparse": 2, "stats": 1, "join": 1}
+                    "kill": 1, "bf": 1, "bfsparse": 2, "stats": 1, "join": 1, "tresp": 1}
     names = list(w)
     for _ in range(steps):
         if not alive:
@@ -226,4 +226,11 @@ def protocol_scenario(rng, npeers, n, steps, weights=None):
             ops += ["add %d" % nxt, "init %d" % nxt, "bf %d %s" % (nxt, rand_bits(rng, n))]
             alive.append(nxt)
             nxt += 1
+        elif k == "tresp":
+            # a tracker answer listing connected peers, new addresses and the same address more than once
+            pool = alive + [nxt + 20, nxt + 21, nxt + 22]
+            lst = [rng.choice(pool) for _ in range(rng.choice([0, 1, 2, 4]))]
+            if lst and rng.random() < 0.5:
+                lst.append(lst[0])
+            ops.append("tresp %s" % (",".join(map(str, lst)) or "-"))
     return ops
